@@ -269,3 +269,39 @@ def load_all(fresh=False):
     errflow.PROG = prog
     cg = callgraph.CallGraph(prog)
     return prog, cg
+
+
+class RuleAlias:
+    """A view of a Check under which another property's rules are recorded with a rule id of this property (one mechanism serving two
+    properties: e.g. the grouping of related names, C07, is also what lets name resolution see earlier patches of the run, C16)."""
+
+    def __init__(self, ck, rename):
+        self._ck = ck
+        self._rename = rename
+
+    def __getattr__(self, name):
+        return getattr(self._ck, name)
+
+    def ok(self, rule, instance, detail="", where=""):
+        self._ck.ok(self._rename(rule), instance, detail, where)
+
+    def violate(self, rule, key, message, where=""):
+        self._ck.violate(self._rename(rule), key, message, where)
+
+    def info(self, rule, instance, detail="", where=""):
+        self._ck.info(self._rename(rule), instance, detail, where)
+
+    def require(self, cond, rule, instance, message, where="", ok_detail=""):
+        return self._ck.require(cond, self._rename(rule), instance, message, where, ok_detail)
+
+    def floor(self, rule, what, count, minimum):
+        self._ck.floor(self._rename(rule), what, count, minimum)
+
+    def anchor(self, suffix, rule="anchor"):
+        return self._ck.anchor(suffix, rule)
+
+    def count(self, what, n):
+        pass
+
+    def note(self, text):
+        pass
